@@ -352,7 +352,9 @@ func (rb *Buffer) ReadFrom(r io.Reader) (n int64, err error) {
 			if m < 0 {
 				panic("RingBuffer.ReadFrom: reader returned negative count from Read")
 			}
-			rb.isEmpty = false
+			if m > 0 {
+				rb.isEmpty = false
+			}
 			rb.w = (rb.w + m) % rb.size
 			n += int64(m)
 			if err == io.EOF {
@@ -360,6 +362,11 @@ func (rb *Buffer) ReadFrom(r io.Reader) (n int64, err error) {
 			}
 			if err != nil {
 				return
+			}
+			if rb.w != 0 {
+				// Short read: the tail segment is not filled up yet, the next
+				// bytes must go right behind it, not to the front of the buffer.
+				continue
 			}
 			m, err = r.Read(rb.buf[:rb.r])
 			if m < 0 {
